@@ -2033,7 +2033,8 @@ MANIFEST = {
     "note": "level: proof for geometry, measure and decision logic; sampled outputs for RNG uniformity (chi-square tests with loose thresholds), coverage and the "
             "compound-space (SE2/SE3) sampling paths. Trusted: Lean kernel, the three standard axioms, the hand-written model outside what the correspondence "
             "explored, Eigen's SVD for n >= 3 (orthonormality, first column and det = +1 checked per instance at 1e-9; n = 2 recomputed by the model), IEEE rounding "
-            "(modelled, not verified), the harness. Findings F36 (erased PHS never restored; repair diff validated) and F130 (true returned for a bound no PHS can improve on; repair diff validated).",
+            "(modelled, not verified), the harness. The model variant (PHS list restored from allPhsPtrs_; early false when no PHS can improve) is selected from the source of the tree under test; "
+            "F36 and F130 are fixed in /repo, a revert of either is a VIOLATION.",
     "technique": "Lean 4 proof (inner-product-space geometry, determinant/Haar measure of a linear image, Gamma recurrence, finite mixing argument, induction "
                  "over the sampler loops) + differential correspondence incl. RNG-twin replay + sampled-output oracle",
 }
